@@ -51,7 +51,8 @@ fn doc(c: &Value, m: &Mat, variant: bool) -> Value {
     let en = c["enum"].as_str().unwrap();
     let member = c["member"].as_str().unwrap();
     let unknown = json!({"nested": [1, "two", {"three": null}], "flag": true});
-    let lists = opt == "all" || opt == "lists" || ["transport", "hint", "credType", "attFormat"].contains(&en) || member == "descriptor";
+    let only = en == "onlyUnknown";
+    let lists = opt == "all" || opt == "lists" || ["transport", "hint", "credType", "attFormat", "onlyUnknown"].contains(&en) || member == "descriptor";
     let selection = create && (opt == "all" || opt == "selection" || ["userVerification", "attachment", "residentKey"].contains(&en) || member == "selection");
     let exts = opt == "all" || member == "extensions";
     let mut pk = Map::new();
@@ -79,7 +80,13 @@ fn doc(c: &Value, m: &Mat, variant: bool) -> Value {
     }
     let d2 = json!({"type": "public-key", "id": bin(&m.cred2, how)});
     let descs = json!([Value::Object(d1), d2]);
-    if lists {
+    if lists && only {
+        // lists of nothing but unknown entries (variant) against the empty lists (canonical)
+        let d = json!({"type": "public-key", "id": bin(&m.cred1, how), "transports": if variant { json!(["zigbee", "smoke-signal"]) } else { json!([]) }});
+        pk.insert(if create { "excludeCredentials" } else { "allowCredentials" }.into(), json!([d]));
+        pk.insert("hints".into(), if variant { json!(["quantum", "teleport"]) } else { json!([]) });
+        pk.insert("attestationFormats".into(), if variant { json!(["quantum"]) } else { json!([]) });
+    } else if lists {
         pk.insert(if create { "excludeCredentials" } else { "allowCredentials" }.into(), descs);
         pk.insert("hints".into(), if en == "hint" && variant { json!(["security-key", "quantum", "hybrid"]) } else { json!(["security-key", "hybrid"]) });
         pk.insert("attestationFormats".into(), if en == "attFormat" && variant { json!(["packed", "quantum", "none"]) } else { json!(["packed", "none"]) });
@@ -103,6 +110,16 @@ fn doc(c: &Value, m: &Mat, variant: bool) -> Value {
         e.insert("prf".into(), json!({"eval": {"first": bin(&m.prf1, how), "second": bin(&m.prf2, how)}, "evalByCredential": Value::Object(by)}));
         if member == "extensions" && variant {
             e.insert("futureExtension".into(), unknown.clone());
+            // member names of other WebAuthn levels / CTAP extensions are unknown members like any other, whatever
+            // their values look like
+            e.insert("credentialProtectionPolicy".into(), json!("userVerificationOptionalWithCredentialIdList"));
+            e.insert("enforceCredentialProtectionPolicy".into(), json!("yes"));
+            e.insert("largeBlob".into(), json!({"support": "perhaps"}));
+            e.insert("minPinLength".into(), json!(2.5));
+            e.insert("appid".into(), json!(17));
+            e.insert("credBlob".into(), json!([1, "x"]));
+            e.insert("uvm".into(), json!("true"));
+            e.insert("payment".into(), json!({"isPayment": "maybe"}));
         }
         pk.insert("extensions".into(), Value::Object(e));
     }
@@ -145,6 +162,9 @@ fn doc(c: &Value, m: &Mat, variant: bool) -> Value {
             params.push(json!({"type": "public-key", "alg": -9999}));
         }
         params.push(json!({"type": "public-key", "alg": alg(-257)}));
+        if only {
+            params = if variant { vec![json!({"type": "public-key", "alg": -9999}), json!({"type": "public-key", "alg": "-70000"})] } else { vec![] };
+        }
         pk.insert("pubKeyCredParams".into(), Value::Array(params));
         if selection {
             let mut s = Map::new();
